@@ -21,7 +21,7 @@ theorem appKids_comp (xs ys : List HTree) : appKids ys ∘ appKids xs = appKids 
   funext t; cases t; simp [appKids, HTree.setKids, HTree.kids]
 
 theorem find?_of_handle {t : HTree} {h : Nat} (e : t.handle = h) : find? h t = some t := by
-  rw [← e]; exact find?_self t
+  rw [← e]; exact find?_self_ff t
 
 theorem mapAt_of_handle {t : HTree} {h : Nat} (g : HTree → HTree) (e : t.handle = h) :
     mapAt h g t = g t := by
@@ -86,7 +86,7 @@ mutual
           simp [mapAt, appKids_node]
         rw [e1, e2]
         unfold mapAt
-        rw [if_neg (fun e' => hn.1 e'.symm), mapAtList_append, mapAtList_of_not_mem c g ks hn.2]
+        rw [if_neg (fun e' => hn.1 e'.symm), mapAtList_append, mapAtList_of_not_mem_ff c g ks hn.2]
         simp [mapAtList, mapAt_of_handle g hx]
       · simp only [mapAt, e, if_false]
         rw [if_neg (fun e' => hn.1 e'.symm), mapAtList_in_appended p c g x hx hpc ks hn.2]
@@ -134,7 +134,7 @@ mutual
       unfold findList?
       by_cases hk : p ∈ handles k
       · rw [find?_appended p c x hx k hn.1 hk]
-      · rw [mapAt_of_not_mem p _ k hk, find?_none_of_not_mem c k hn.1]
+      · rw [mapAt_of_not_mem_ff p _ k hk, find?_none_of_not_mem c k hn.1]
         exact findList?_appended p c x hx ks hn.2 (hp.resolve_left hk)
 end
 
@@ -148,7 +148,7 @@ mutual
       simp only [handles, List.nodup_cons] at hn
       by_cases e : h = p
       · rw [mapAt_of_handle _ (by simp [HTree.handle, e]), appKids_node]
-        simp only [handles, handlesList_append, List.count_cons, List.count_append, List.mem_cons, e,
+        simp only [handles, handlesList_append_ff, List.count_cons, List.count_append, List.mem_cons, e,
           true_or, if_true]
         omega
       · simp only [mapAt, e, if_false, handles, List.count_cons, List.mem_cons]
